@@ -5,6 +5,7 @@
 //! Private proof fields are reached through mirror structs converted over the real byte format.
 
 use blake2::{Blake2s256, Digest};
+use crate::c09_util::{Label, violation};
 use mc_core::{Report, catch};
 use mithril_merkle_tree::{MKProof, MKTree, MKTreeNode, MKTreeStoreInMemory};
 use serde::{Deserialize, Serialize};
@@ -212,7 +213,8 @@ pub fn probes(w: &World) -> Vec<Bytes> {
     p
 }
 
-pub fn eval_proof(rep: &mut Report, w: &World, p: &PProof, label: &str, count_distinct: bool) -> Verdict {
+pub fn eval_proof<'a>(rep: &mut Report, w: &World, p: &PProof, label: impl Into<Label<'a>>, count_distinct: bool) -> Verdict {
+    let label: Label = label.into();
     rep.eval();
     let Some(real) = p.to_real() else {
         rep.outcome("mkproof:undecodable");
@@ -245,7 +247,7 @@ pub fn eval_proof(rep: &mut Report, w: &World, p: &PProof, label: &str, count_di
     if verdict != Verdict::Accepted {
         return verdict;
     }
-    let replay = || json!({"part": "mkproof", "committed": w.leaves.iter().map(hex::encode).collect::<Vec<_>>(), "proof": p.to_json(), "made_by": label});
+    let replay = || json!({"part": "mkproof", "committed": w.leaves.iter().map(hex::encode).collect::<Vec<_>>(), "proof": p.to_json(), "made_by": label.to_string()});
     let committed_hex = || w.leaves.iter().map(|l| String::from_utf8_lossy(l).to_string()).collect::<Vec<_>>();
     let mut all_true = true;
     // (a) every (position, item) the proof states
@@ -275,11 +277,9 @@ pub fn eval_proof(rep: &mut Report, w: &World, p: &PProof, label: &str, count_di
                 ),
             }
         };
-        rep.violation(
-            &key,
-            format!("MKProof verifies against the committed root although {what}; committed leaves {:?}; proof made by: {label}", committed_hex()),
-            replay(),
-        );
+        violation(rep, &key, || {
+            (format!("MKProof verifies against the committed root although {what}; committed leaves {:?}; proof made by: {label}", committed_hex()), replay())
+        });
     }
     // (b) what the real accessors tell a caller (items the proof states are judged under (a))
     let stated = |x: &[u8]| p.inner_leaves.iter().any(|(_, it)| it.hash == x);
@@ -304,8 +304,8 @@ pub fn eval_proof(rep: &mut Report, w: &World, p: &PProof, label: &str, count_di
             );
         }
     }
-    if all_true && label != "honest" && rep.extras.get("mkproof_sample_accepted_mutant").is_none() {
-        rep.extra("mkproof_sample_accepted_mutant", json!({"made_by": label, "n": w.n(), "proof": p.to_json()}));
+    if all_true && !label.is_honest() && rep.extras.get("mkproof_sample_accepted_mutant").is_none() {
+        rep.extra("mkproof_sample_accepted_mutant", json!({"made_by": label.to_string(), "n": w.n(), "proof": p.to_json()}));
     }
     verdict
 }
@@ -486,7 +486,7 @@ pub fn mutations(c: &PProof, m: &Material) -> Vec<(String, PProof)> {
     out
 }
 
-pub fn mutation_sweep(n: usize, mask: u32, depth: usize) -> Report {
+pub fn mutation_sweep(n: usize, mask: u32, depth: usize, chunk: usize, chunks: usize) -> Report {
     let mut rep = Report::new("exploration", "");
     let Ok(w) = World::members(n) else {
         rep.machinery_error(format!("cannot build MKTree of {n} leaves"));
@@ -499,14 +499,17 @@ pub fn mutation_sweep(n: usize, mask: u32, depth: usize) -> Report {
     };
     let honest = PProof::from_real(&real);
     let singles = mutations(&honest, &m);
-    rep.add_extra("mkproof_single_mutants", singles.len() as u64);
-    for (label, p) in &singles {
+    for (i, (label, p)) in singles.iter().enumerate() {
+        if i % chunks != chunk {
+            continue;
+        }
+        rep.add_extra("mkproof_single_mutants", 1);
         eval_proof(&mut rep, &w, p, label, true);
         if depth >= 2 {
             let pairs = mutations(p, &m);
             rep.add_extra("mkproof_paired_mutants", pairs.len() as u64);
             for (label2, p2) in &pairs {
-                eval_proof(&mut rep, &w, p2, &format!("{label} ; {label2}"), false);
+                eval_proof(&mut rep, &w, p2, Label(label, label2), false);
             }
         }
     }
@@ -538,7 +541,8 @@ pub fn frontier_sweep(n: usize) -> Report {
             let idx = subset_indices(mask, f.len());
             let Ok(real) = other.honest(&idx) else { continue };
             let p = PProof::from_real(&real);
-            eval_proof(&mut rep, &w, &p, &format!("honest proof of the {}-leaf list obtained by cutting the committed tree at inner nodes (same root)", f.len()), true);
+            let made = format!("honest proof of the {}-leaf list obtained by cutting the committed tree at inner nodes (same root)", f.len());
+            eval_proof(&mut rep, &w, &p, &made, true);
         }
     }
     rep
@@ -583,6 +587,10 @@ pub fn cross_root_sweep(n: usize) -> Report {
 }
 
 pub fn replay(rep: &mut Report, v: &Value) {
+    if v["part"] == "mkproof-large" {
+        rep.merge(large_size_sweep(v["n"].as_u64().unwrap_or(17) as usize, false));
+        return;
+    }
     if v["part"] == "mkproof-honest" {
         rep.merge(honest_sweep(v["n"].as_u64().unwrap_or(1) as usize));
         return;
@@ -592,4 +600,38 @@ pub fn replay(rep: &mut Report, v: &Value) {
     let p = PProof::from_json(&v["proof"]);
     let verdict = eval_proof(rep, &w, &p, v["made_by"].as_str().unwrap_or("replay"), true);
     eprintln!("replay (mkproof): verdict {verdict:?}");
+}
+
+/// larger sizes: selected subsets (same selection as for the STM tree), honest proof plus its single mutations
+pub fn large_size_sweep(n: usize, mutate: bool) -> Report {
+    let mut rep = Report::new("exploration", "");
+    let Ok(w) = World::members(n) else {
+        rep.machinery_error(format!("cannot build MKTree of {n} leaves"));
+        return rep;
+    };
+    if w.expr.hash != w.root {
+        rep.machinery_error(format!("reference root expression differs from MKTree::compute_root for n={n}"));
+        return rep;
+    }
+    let m = material(&w);
+    for idx in crate::c09_stm::selected_subsets(n) {
+        let Ok(real) = w.honest(&idx) else {
+            rep.eval();
+            violation(&mut rep, "C09/mkproof:proof-generation-fails", || (format!("compute_proof fails for n={n} leaves {idx:?}"), json!({"part": "mkproof-large", "n": n})));
+            continue;
+        };
+        let p = PProof::from_real(&real);
+        let v = eval_proof(&mut rep, &w, &p, "honest", true);
+        if v != Verdict::Accepted {
+            violation(&mut rep, "C09/mkproof:honest-proof-rejected", || {
+                (format!("the proof generated for n={n} leaves {idx:?} is not accepted ({v:?})"), json!({"part": "mkproof-large", "n": n}))
+            });
+        }
+        if mutate && idx.len() <= 2 {
+            for (label, c) in mutations(&p, &m) {
+                eval_proof(&mut rep, &w, &c, &label, true);
+            }
+        }
+    }
+    rep
 }
